@@ -22,11 +22,33 @@ PROBES = {
     "p8": "f > c",
     "p9": "f(a as ta)",
     "p10": ("f > a", "f(!a)"),
+    "q2": "f > b",
     "bad": "f > zzz",
     "bad2": "g > #nope",
+    "bad3": "f > lam > a",
 }
-ENV = {"f": LW.f, "g": LW.g}
+ENV = {"f": LW.f, "g": LW.g, "lam": (lambda z: z)}
+FNS = {"f": LW.f, "g": LW.g}
 ORIG = {"f": LW.f.__code__, "g": LW.g.__code__}
+
+
+class _OverlayProbe:
+    """gives a BaseOverlay the enter / exit surface of a Probe"""
+
+    def __init__(self, ol):
+        self._ol = ol
+
+    def __enter__(self):
+        self._ol.__enter__()
+        return self
+
+    def __exit__(self, *a):
+        self._ol.__exit__(None, None, None)
+
+    deactivate = __exit__
+
+    def map(self, fn):
+        return self
 
 
 def observe(probes, recv):
@@ -43,17 +65,21 @@ def observe(probes, recv):
             curids.append(owner)
     cnt = {}
     caps = {}
-    for name, fn in ENV.items():
+    for name, fn in FNS.items():
         st = getattr(fn, "__ptera_stack__", None)
         cnt[name] = st.instrument_count if st is not None else 0
         caps[name] = sum(st.captures.values()) if st is not None else 0
-    gp = sorted(pid for pid, p in probes.items() if p in global_probes)
+    gp = sorted(pid for pid, p in probes.items() if p in global_probes or (isinstance(p, _OverlayProbe) and pid in ACTIVE_OV))
     return {"recv": {pid: list(v) for pid, v in recv.items()},
-            "orig": {name: ENV[name].__code__ is ORIG[name] for name in ENV},
+            "orig": {name: FNS[name].__code__ is ORIG[name] for name in FNS},
             "cur": {"none": curids == "none", "ids": [] if curids == "none" else curids}, "cnt": cnt, "caps": caps, "gp": gp}
 
 
+ACTIVE_OV = set()
+
+
 def run_case(case):
+    ACTIVE_OV.clear()
     probes = {}
     recv = {}
     used = {op[1] for op in case["ops"] if op[0] in ("act", "deact")}
@@ -61,6 +87,14 @@ def run_case(case):
         recv[pid] = []
         if pid not in used:
             continue            # never touched in this history: nothing to create
+        if pid == "q2":
+            # a plain overlay on pre-tooled functions: BaseOverlay + Immediate, no tooling of its own
+            from ptera.interpret import Immediate
+            from ptera.overlay import BaseOverlay
+            from ptera.selector import select
+            h = Immediate(select("f > b", env=ENV), trigger=lambda d, pid=pid: recv[pid].append(sorted([k, c.value] for k, c in d.items())))
+            probes[pid] = _OverlayProbe(BaseOverlay(h))
+            continue
         if pid == "p9":
             # total mode; its listener raises for the value 13 (after recording the event)
             p = Probe(text, env=ENV, raw=True)
@@ -81,8 +115,11 @@ def run_case(case):
         try:
             if op[0] == "act":
                 probes[op[1]].__enter__()
+                if isinstance(probes[op[1]], _OverlayProbe):
+                    ACTIVE_OV.add(op[1])
             elif op[0] == "deact":
                 p = probes[op[1]]
+                ACTIVE_OV.discard(op[1])
                 if op[2] == "exc":
                     try:
                         raise KeyError("user error")
@@ -109,7 +146,7 @@ def run_case(case):
             except Exception:
                 pass
     HandlerCollection.current.set(None)
-    for fn in ENV.values():
+    for fn in FNS.values():
         st = getattr(fn, "__ptera_stack__", None)
         if st is not None:
             st.instrument_count = 0
@@ -120,6 +157,12 @@ def run_case(case):
 
 def main():
     cases = json.load(open(sys.argv[1]))
+    if cases and cases[0].get("pretooled"):
+        # the whole batch runs on functions tooled in place beforehand: their "original" code is the tooled one
+        from ptera.overlay import tooled
+        for name, fn in FNS.items():
+            tooled.inplace(fn)
+            ORIG[name] = fn.__code__
     out = [run_case(c) for c in cases]
     json.dump(out, open(sys.argv[2], "w"))
     print(json.dumps({"traces": len(out), "steps": sum(len(t["steps"]) for t in out)}))
